@@ -60,4 +60,30 @@ CalcKeyspace(level) ==
    IN SumIP(DOMAIN M.ip)
 (* the trainer lists levels 1..18 *)
 KeyspaceExact == lv >= 1 => CalcKeyspace(lv) = Keyspace(M, lv)
+
+(* ---- C11, I-layer: the trainer's find_omen_level and the scorer's OmenScorer.parse ---- *)
+(* trainer: grammar[context] exists for every context the trainer has seen, and each such entry carries an ip_level; *)
+(* a ruleset "written by the trainer" therefore lists every context of a transition in IP.level                     *)
+TrainerShaped == \A c \in DOMAIN M.cp : SubSeq(c, 1, NG - 1) \in DOMAIN M.ip
+RECURSIVE TrChain(_, _)            \* while end_pos <= pw_len: grammar[chunk[:-1]]['next_letter'][chunk[-1]]  (KeyError -> -1)
+TrChain(s, e) == IF e > Len(s) THEN 0
+                 ELSE LET c == SubSeq(s, e - NG + 1, e) IN
+                      IF SubSeq(c, 1, NG - 1) \notin DOMAIN M.ip \/ c \notin DOMAIN M.cp THEN -1
+                      ELSE LET r == TrChain(s, e + 1) IN IF r = -1 THEN -1 ELSE M.cp[c] + r
+TrainerLevel(s) == IF Len(s) < NG \/ Len(s) > MaxLen THEN -1               \* min_length = max(1, ngram), max_length
+                   ELSE IF SubSeq(s, 1, NG - 1) \notin DOMAIN M.ip THEN -1
+                   ELSE LET r == TrChain(s, NG) IN IF r = -1 THEN -1 ELSE M.ln[Len(s)] + M.ip[SubSeq(s, 1, NG - 1)] + r
+RECURSIVE ScChain(_, _)            \* self.cp[chunk]
+ScChain(s, e) == IF e > Len(s) THEN 0
+                 ELSE LET c == SubSeq(s, e - NG + 1, e) IN
+                      IF c \notin DOMAIN M.cp THEN -1
+                      ELSE LET r == ScChain(s, e + 1) IN IF r = -1 THEN -1 ELSE M.cp[c] + r
+ScorerLevel(s) == IF Len(s) < NG \/ Len(s) > MaxLen THEN -1                \* max_len = number of LN lines
+                  ELSE IF SubSeq(s, 1, NG - 1) \notin DOMAIN M.ip THEN -1
+                  ELSE LET r == ScChain(s, NG) IN IF r = -1 THEN -1 ELSE M.ln[Len(s)] + M.ip[SubSeq(s, 1, NG - 1)] + r
+PLevel(s) == IF Level(M, s) = NoLevel THEN -1 ELSE Level(M, s)
+(* every string up to one character longer than the longest length, over the alphabet plus one foreign character *)
+AgreeStrings == UNION { [1..k -> 0..NA] : k \in 0..(MaxLen + 1) }
+ThreeAgree == (lv = 0 /\ TrainerShaped) => \A s \in AgreeStrings : TrainerLevel(s) = PLevel(s) /\ ScorerLevel(s) = PLevel(s)
+(* and the generator emits s at exactly that level: s \in LevelSet(M, L) <=> Level(M, s) = L  (TwoDefinitionsAgree) *)
 =============================================================================
